@@ -48,10 +48,14 @@ def run(rep, tier, seed):
             chk.generate('deep11', deep_consts(11), cassettes=('memory', 's3'), n_conc=1, sample=300, cap=500,
                          invariants=['TypeOK'], max_states=600000)
         else:
-            chk.check('chk', gen_consts(4), invariants=INVS, timeout=3000)
+            noctl = [e for e in EDITS if e != 'ctl']
+            chk.check('chk', gen_consts(3), invariants=INVS, timeout=3000)
+            chk.check('chk4', gen_consts(4, Ctl=[], EditKinds=noctl), invariants=INVS, timeout=3000)
             chk.generate('gen2', gen_consts(2), cassettes=('memory', 'file', 's3'), n_conc=4, all_paths=True, cap=200000)
-            chk.generate('gen3', gen_consts(3), cassettes=('memory',), n_conc=2, sample=80000, cap=120000,
+            chk.generate('gen3', gen_consts(3, Ctl=[], EditKinds=noctl), cassettes=('memory',), n_conc=2, sample=80000, cap=120000,
                          max_states=800000)
+            chk.generate('gen3ctl', gen_consts(3, InCalls=[('ia1', 1)], Vals=['v1']),
+                         cassettes=('memory', 'file'), n_conc=1, sample=40000, cap=60000, max_states=800000)
             chk.generate('deep12', deep_consts(12), cassettes=('memory', 'file', 's3'), n_conc=1, sample=5000, cap=8000,
                          invariants=['TypeOK'], max_states=800000)
     finally:
